@@ -441,12 +441,17 @@ def gen_domains(run, scale):
         out.append(strcase("psl", "random", s))
         out.append(strcase("rp_id", "random", s))
         out.append(strcase("rp_origin", "random", rng.choice(["", "https://", "http://", "https://user:pw@", "file:///", "android:"]) + s))
-    for shape, d in [("many-labels", "a." * 10000 + "com"), ("many-labels", "." * 100000), ("long-label", "x" * 100000 + ".co.uk"),
+    for shape, d in [("many-labels", "a." * 10000 + "com"), ("many-labels", "a." * 100000 + "example.com"), ("many-labels", "." * 100000), ("long-label", "x" * 100000 + ".co.uk"),
                      ("many-labels", ("xn--55qx5d." * 5000) + "cn"), ("long-label", "xn--" + "a" * 100000 + ".com"),
                      ("many-labels", ".".join(["kobe", "jp"] * 20000)), ("long-unicode", "公司" * 30000 + ".cn")]:
         out.append(strcase("psl", shape, d))
         out.append(strcase("rp_id", shape, d))
         out.append(strcase("rp_origin", shape, "https://" + d + "/x"))
+    # an origin host with a great many labels against a short RP ID (the suffix test walks the host)
+    for n in (1000, 20000, 100000):
+        host = "a." * n + "example.com"
+        for rp in ("example.com", "a.example.com", "other.org", ""):
+            out.append(strcase("rp_id", "many-label-origin", rp, origin="https://" + host))
     return out
 
 
